@@ -24,10 +24,12 @@ def rule_r1(ctx):
     for name in ("nni_msg_header_append", "nni_msg_header_insert"):
         f = prog.need(name, "core/message.c")
         ok = False
-        for b in f.blocks.values():
-            c = f.cond(b.id) if b.term and len(b.succs) == 2 else None
-            if c is None or c.get("k") != "bin" or "m_header_len" not in show(c):
+        seen_atoms = set()
+        for bid, _k, c, _val in G.edge_facts(f):
+            if c.get("k") != "bin" or "m_header_len" not in show(c) or (bid, show(c)) in seen_atoms:
                 continue
+            seen_atoms.add((bid, show(c)))
+            b = f.blocks[bid]
             subs = [n for n in walk(c) if n.get("k") == "bin" and n["op"] == "-"]
             sums = [n for n in walk(c) if n.get("k") == "bin" and n["op"] == "+" and "m_header_len" in show(n) and "len" in show(n)]
             if sums and not subs:
@@ -36,11 +38,10 @@ def rule_r1(ctx):
             for s_ in subs:
                 # need a dominating guard: subtrahend <= minuend
                 guard = {}
-                for b2 in f.blocks.values():
-                    c2 = f.cond(b2.id) if b2.term and len(b2.succs) == 2 else None
-                    if c2 is not None and c2.get("k") == "bin" and c2["op"] in (">", "<=") and same_expr(c2["lhs"], s_["rhs"]) \
-                            and same_expr(c2["rhs"], s_["lhs"]):
-                        guard[b2.id] = 1 if c2["op"] == ">" else 0
+                for b2id, k2, c2, v2 in G.edge_facts(f):
+                    if c2.get("k") == "bin" and c2["op"] in (">", "<=") and same_expr(c2["lhs"], s_["rhs"]) \
+                            and same_expr(c2["rhs"], s_["lhs"]) and ((c2["op"] == "<=") == v2):
+                        guard[b2id] = k2
                 if guard and G.dominated(f, (b.id, 0), guard):
                     ok = True
                     r.ob(f, "subtraction form guarded by %s <= %s" % (show(s_["rhs"]), show(s_["lhs"])))
@@ -90,31 +91,34 @@ def rule_r4(ctx):
     forms = {}
     for name in ("nni_chunk_grow", "nni_chunk_insert"):
         f = prog.need(name, "core/message.c")
-        lo, hi = [], []
-        for b in f.blocks.values():
-            c = f.cond(b.id) if b.term and len(b.succs) == 2 else None
-            if c is None or c.get("k") != "bin" or not G.field_is(c["lhs"], "ch_ptr"):
-                continue
-            if G.field_is(c["rhs"], "ch_buf"):
-                lo.append((c["op"], b.id))
-            elif c["rhs"].get("k") == "bin" and c["rhs"]["op"] == "+" and "ch_buf" in show(c["rhs"]) and "ch_cap" in show(c["rhs"]):
-                hi.append((c["op"], b.id))
-        forms[name] = (lo, hi)
-        if not lo or not hi:
+        def is_ptr(n):
+            return G.field_is(n, "ch_ptr")
+
+        def is_buf(n):
+            return G.field_is(n, "ch_buf") and n.get("k") == "mem"
+
+        def is_end(n):
+            return n is not None and n.get("k") == "bin" and n["op"] == "+" and \
+                {True} == {G.field_is(n["lhs"], "ch_buf") or G.field_is(n["lhs"], "ch_cap")} and \
+                {True} == {G.field_is(n["rhs"], "ch_buf") or G.field_is(n["rhs"], "ch_cap")} and \
+                G.field_is(n["lhs"], "ch_buf") != G.field_is(n["rhs"], "ch_buf")
+        # the two halves of "ch_ptr lies in [ch_buf, ch_buf + ch_cap)" in any spelling
+        ge, gt = G.rel_edges(f, is_ptr, is_buf, ">="), G.rel_edges(f, is_ptr, is_buf, ">")
+        lt, le = G.rel_edges(f, is_ptr, is_end, "<"), G.rel_edges(f, is_ptr, is_end, "<=")
+        forms[name] = (ge, lt)
+        if not (ge or gt) or not (lt or le):
             ctx.fail(r, f, "in-store test missing", f.line, "%s no longer tests whether ch_ptr lies in [ch_buf, ch_buf + ch_cap)" % name)
             continue
-        for op, b in lo:
-            if op == ">=":
-                r.ob(f, "ch_ptr >= ch_buf")
-            else:
-                ctx.fail(r, f, "in-store test excludes offset 0", f.line_of(b, 0),
-                         "%s tests ch_ptr %s ch_buf: data that starts at the beginning of the buffer (no headroom) is treated as "
-                         "not stored, and the next growth drops it" % (name, op))
-        for op, b in hi:
-            if op == "<":
-                r.ob(f, "ch_ptr < ch_buf + ch_cap")
-            else:
-                ctx.fail(r, f, "in-store upper test %s" % op, f.line_of(b, 0), "%s compares ch_ptr %s ch_buf + ch_cap" % (name, op))
+        if ge:
+            r.ob(f, "ch_ptr >= ch_buf")
+        else:
+            ctx.fail(r, f, "in-store test excludes offset 0", f.line_of(sorted(gt)[0], 0),
+                     "%s tests ch_ptr > ch_buf: data that starts at the beginning of the buffer (no headroom) is treated as "
+                     "not stored, and the next growth drops it" % name)
+        if lt:
+            r.ob(f, "ch_ptr < ch_buf + ch_cap")
+        else:
+            ctx.fail(r, f, "in-store upper test <=", f.line_of(sorted(le)[0], 0), "%s compares ch_ptr <= ch_buf + ch_cap" % name)
     g = prog.need("nni_chunk_grow", "core/message.c")
     copies = [s for s in g.calls("memcpy")]
     clamp = [t for t in g.assigns() if t.node["lhs"].get("k") == "var" and t.node["lhs"]["n"] == "newsz" and
